@@ -881,9 +881,10 @@ def gen_case_program(seed, yield_mode=False):
             body.append({'t': 'match', 'm': {'k': 'str', 'bytes': [r.choice(A)]}})
         elif k < 0.65:
             body = [{'t': 'match', 'm': {'k': 'str', 'bytes': [r.choice(A)]}}] + marker
-        if greedy and body and all(x['t'] not in ('match',) for x in body):
-            # known finding greedy-action-only-early: action-only clause bodies of a greedy case fire on entering the
-            # finishing state; keep random exploration off that class (its pinned witness is re-run by the check)
+        if greedy and all(x['t'] not in ('match',) for x in body):
+            # known finding greedy-action-only-early: action-only (or empty) clause bodies of a greedy case - and the actions
+            # that follow the case - fire on entering the finishing state; keep random exploration off that class (its
+            # pinned witness is re-run by the check)
             body.append({'t': 'match', 'm': {'k': 'str', 'bytes': [r.choice(A)]}})
         cl.append({'ps': ps, 'prio': r.choice([0, 0, 1, 2]) if greedy else 0, 'b': body})
     if r.random() < 0.6:
